@@ -33,25 +33,36 @@ import (
 )
 
 type Case struct {
-	Mode        string          `json:"mode"`
-	Target      string          `json:"target"`
-	AST         *AST            `json:"ast"`
-	Desc        json.RawMessage `json:"desc"`
-	Minimal     json.RawMessage `json:"minimal"`
-	Labels      []string        `json:"labels"`
-	GrammarFree bool            `json:"grammar_free"`
-	Accepts     bool            `json:"accepts"`
-	Stage       string          `json:"stage"`
-	Cause       string          `json:"cause"`
-	Toks        []TokAttr       `json:"toks"`
+	Mode        string                     `json:"mode"`
+	Target      string                     `json:"target"`
+	AST         *AST                       `json:"ast"`
+	Desc        json.RawMessage            `json:"desc"`
+	Minimal     json.RawMessage            `json:"minimal"`
+	Labels      []string                   `json:"labels"`
+	GrammarFree bool                       `json:"grammar_free"`
+	Accepts     bool                       `json:"accepts"`
+	Stage       string                     `json:"stage"`
+	Cause       string                     `json:"cause"`
+	Toks        []TokAttr                  `json:"toks"`
 	Xf          map[string]json.RawMessage `json:"xf"`
-	XfSample    json.RawMessage `json:"xf_sample"`
-	UToks       []string        `json:"utoks"`
-	What        string          `json:"what"`
-	Seed        int64           `json:"seed"`
-	Count       int             `json:"count"`
+	XfSample    json.RawMessage            `json:"xf_sample"`
+	UToks       []string                   `json:"utoks"`
+	Builders    []Builder                  `json:"builders"`
+	What        string                     `json:"what"`
+	Seed        int64                      `json:"seed"`
+	Count       int                        `json:"count"`
 	// replay of a recorded random case
 	Tree *Tree `json:"tree,omitempty"`
+}
+
+// Builder is one call of a public builder on a built schema (spec/MetaMC.tla Bld): the AST of the case is the
+// schema AFTER the calls.
+type Builder struct {
+	Op     string `json:"op"` // disable | treat_empty
+	Scope  string `json:"scope"`
+	Obj    string `json:"obj"`
+	Prop   string `json:"prop"`
+	Reason string `json:"reason"`
 }
 
 type TokAttr struct {
@@ -449,7 +460,7 @@ func baseline() map[string]bool {
 		"m":  prop(schema.NewMapSchema(str(), schema.NewRefSchema("C", nil), nil, nil), false, nil),
 		"mi": prop(schema.NewMapSchema(schema.NewIntSchema(nil, nil, nil), str(), nil, nil), false, nil),
 		"r":  prop(schema.NewRefSchema("A", nil), false, nil),
-		"o": prop(schema.NewOneOfStringSchema[any](map[string]schema.Object{"x": schema.NewRefSchema("B", nil)}, "t", true), false, nil),
+		"o":  prop(schema.NewOneOfStringSchema[any](map[string]schema.Object{"x": schema.NewRefSchema("B", nil)}, "t", true), false, nil),
 		"oi": prop(schema.NewOneOfIntSchema[any](map[int64]schema.Object{1: schema.NewRefSchema("C", nil), 2: schema.NewObjectSchema("E",
 			map[string]*schema.PropertySchema{"e": prop(str(), false, nil)})}, "d", false), false, nil),
 		"sc": prop(schema.NewScopeSchema(schema.NewObjectSchema("D", map[string]*schema.PropertySchema{
@@ -770,6 +781,79 @@ func describeFails(a *AST, target string) (bool, string, string) {
 	return false, "", ""
 }
 
+// beforeBuilders returns a copy of the AST as it was before the builder calls.
+func beforeBuilders(a *AST, target string, bs []Builder) *AST {
+	raw, _ := json.Marshal(a)
+	var c AST
+	_ = json.Unmarshal(raw, &c)
+	scopes := astScopes(&c, target)
+	for _, bd := range bs {
+		sc := scopes[bd.Scope]
+		if sc == nil {
+			continue
+		}
+		for _, o := range sc.objects() {
+			if o.Key != bd.Obj {
+				continue
+			}
+			ps := o.Obj.props()
+			for i := range ps {
+				if ps[i].Name != bd.Prop {
+					continue
+				}
+				switch bd.Op {
+				case "disable":
+					ps[i].Disabled = false
+					ps[i].DisabledReason = OptS{}
+				case "treat_empty":
+					ps[i].EmptyIsDefault = false
+				}
+			}
+		}
+	}
+	return &c
+}
+
+// applyBuilders calls the public builders on the real, built schema, in place - on the plain schema and on
+// the callable one that is served over ATP.
+func applyBuilders(b builtTop, target string, bs []Builder) {
+	byName := map[string][]schema.Scope{}
+	for _, s := range b.scopes() {
+		byName[s.name] = append(byName[s.name], s.sc)
+	}
+	if b.callable != nil {
+		for id, st := range b.callable.StepsValue {
+			byName["steps."+id+".input"] = append(byName["steps."+id+".input"], st.Input())
+			for k, o := range st.Outputs() {
+				byName["steps."+id+".outputs."+k] = append(byName["steps."+id+".outputs."+k], o.Schema())
+			}
+			for k, g := range st.SignalHandlers() {
+				byName["steps."+id+".signal_handlers."+k] = append(byName["steps."+id+".signal_handlers."+k], g.DataSchema())
+			}
+			for k, g := range st.SignalEmitters() {
+				byName["steps."+id+".signal_emitters."+k] = append(byName["steps."+id+".signal_emitters."+k], g.DataSchema())
+			}
+		}
+	}
+	for _, bd := range bs {
+		scs := byName[bd.Scope]
+		if len(scs) == 0 {
+			panic("no scope " + bd.Scope)
+		}
+		for _, sc := range scs {
+			p := sc.Objects()[bd.Obj].Properties()[bd.Prop]
+			switch bd.Op {
+			case "disable":
+				p.Disable(bd.Reason)
+			case "treat_empty":
+				p.TreatEmptyAsDefaultValue()
+			default:
+				panic("unknown builder " + bd.Op)
+			}
+		}
+	}
+}
+
 func rootKind(a *AST) string {
 	// the kind of the property under test ("p" of the root object), for signatures
 	if a == nil {
@@ -802,13 +886,42 @@ func doC09(c *Case, r *Result, replay any) {
 			}
 		}
 	}()
-	b, pi := buildTop(a, target, true)
+	lifeCycle := len(c.Builders) > 0 && len(feats) == 0
+	built := a
+	if lifeCycle {
+		built = beforeBuilders(a, target, c.Builders)
+	}
+	b, pi := buildTop(built, target, true)
 	if pi != nil {
 		r.HarnessError = "the generated schema cannot be built through the constructors: " + pi.Msg + " @" + pi.Frame
 		return
 	}
 	d0, err, pi := b.selfSerialize()
 	r.Evals++
+	if err == nil && pi == nil {
+		// describing twice must agree
+		d0b, err2, pi2 := b.selfSerialize()
+		if err2 != nil || pi2 != nil {
+			r.violate("describe", "second_describe_fails", "none", "any", "", fmt.Sprint("describing the same schema again fails: ", err2, pi2))
+		} else if df := diffGo(d0, d0b, "$"); df != "" {
+			r.violate("redescribe", "unstable:"+lastField(df), "none", "any", "", "two descriptions of the same schema differ: "+df)
+		}
+	}
+	if lifeCycle && err == nil && pi == nil {
+		// Build -> Describe (done) -> public builders, in place -> Describe again; everything below judges the
+		// schema and the description AFTER the builder calls
+		var dc0 any
+		if b.callable != nil {
+			_ = sup.Guard(func() { dc0, _ = b.callable.SelfSerialize() })
+		}
+		_ = dc0
+		if bpi := sup.Guard(func() { applyBuilders(b, target, c.Builders) }); bpi != nil {
+			r.HarnessError = "cannot apply the builders: " + bpi.Msg
+			return
+		}
+		d0, err, pi = b.selfSerialize()
+		r.Evals++
+	}
 	neutral := false
 	if err != nil || pi != nil {
 		msg := ""
